@@ -127,7 +127,9 @@ def classify(res, unit):
             rec["tool"] = True
             undecided.append(rec)
             continue
-        if kind == "rlimit":
+        if kind in ("rlimit", "other", "recommends"):
+            # not an obligation failure: resource limit, unsupported construct, tool message
+            rec["tool"] = kind != "rlimit"
             undecided.append(rec)
             continue
         if o_prim is None:
